@@ -359,6 +359,8 @@ type localBuf struct {
 	lo, hi lexpr // the local is base[lo:hi]
 }
 
+const topAtEntry = "top@entry"
+
 type idxSite struct {
 	local *localBuf
 	fn    string
@@ -368,6 +370,7 @@ type idxSite struct {
 	pos   token.Pos
 	inLoopCond bool
 	fnObj *types.Func
+	liveRead bool // a read of the call stack outside Lex: the slot must be one a push wrote (below the top on entry)
 }
 
 // idxCall: one call of a function of the package, with what is known there.
@@ -585,6 +588,19 @@ func (a *Analysis) IdxGuard() *report.RuleResult {
 				facts = append(facts, cursorIn...)
 			}
 		}
+		if fname != "Lex" {
+			// ghost: the top of the call stack when the function is entered
+			facts = append(facts, mk(map[string]int{"lex.top": 1, topAtEntry: -1}, 0), mk(map[string]int{topAtEntry: 1, "lex.top": -1}, 0))
+		}
+		stores := map[ast.Expr]bool{} // index expressions that are assigned to
+		ast.Inspect(fd.Body, func(n ast.Node) bool {
+			if as, ok := n.(*ast.AssignStmt); ok {
+				for _, l := range as.Lhs {
+					stores[unparen(l)] = true
+				}
+			}
+			return true
+		})
 		curMachine := ""
 		locals := map[string]*localBuf{} // locals that are slices of a scanner buffer
 		// integer parameters that every call site in the package passes the same constant for
@@ -616,8 +632,11 @@ func (a *Analysis) IdxGuard() *report.RuleResult {
 				visitExpr(x.X, facts, loopCond)
 				visitExpr(x.Y, facts, loopCond)
 			case *ast.IndexExpr:
-				if _, ok := isBuf(x.X); ok {
+				if bn, ok := isBuf(x.X); ok {
 					sites = append(sites, idxSite{fnObj: fnObj, fn: fname, expr: types.ExprString(x), node: x, facts: append([]fact{}, facts...), pos: x.Pos(), inLoopCond: loopCond})
+					if bn == "lex.stack" && fname != "Lex" && !stores[x] {
+						sites = append(sites, idxSite{fnObj: fnObj, fn: fname, expr: types.ExprString(x), node: x, facts: append([]fact{}, facts...), pos: x.Pos(), liveRead: true})
+					}
 				} else if id, ok := unparen(x.X).(*ast.Ident); ok {
 					if lb, ok := locals[id.Name]; ok {
 						sites = append(sites, idxSite{fnObj: fnObj, local: lb, fn: fname, expr: types.ExprString(x), node: x, facts: append([]fact{}, facts...), pos: x.Pos()})
@@ -667,6 +686,59 @@ func (a *Analysis) IdxGuard() *report.RuleResult {
 			var out []fact
 			for _, f := range facts {
 				if _, uses := f.E.T[term]; !uses {
+					out = append(out, f)
+				}
+			}
+			return out
+		}
+		// modifiedBy: the terms a statement (and what it calls in the package) may assign
+		termOfField := map[string]string{"ts": "lex.ts", "te": "lex.te", "p": "lex.p", "top": "lex.top"}
+		modifiedBy := func(n ast.Node) map[string]bool {
+			out := map[string]bool{}
+			if n == nil {
+				return out
+			}
+			ast.Inspect(n, func(y ast.Node) bool {
+				switch z := y.(type) {
+				case *ast.AssignStmt:
+					for _, l := range z.Lhs {
+						out[pr.term(l)] = true
+					}
+				case *ast.IncDecStmt:
+					out[pr.term(z.X)] = true
+				case *ast.RangeStmt:
+					if z.Key != nil {
+						out[pr.term(z.Key)] = true
+					}
+					if z.Value != nil {
+						out[pr.term(z.Value)] = true
+					}
+				case *ast.CallExpr:
+					if o := calleeOf(z); o != nil {
+						for f, t := range termOfField {
+							if mayWrite(o, f, map[*types.Func]bool{}) {
+								out[t] = true
+							}
+						}
+					}
+				}
+				return true
+			})
+			return out
+		}
+		killAll := func(facts []fact, terms map[string]bool) []fact {
+			if len(terms) == 0 {
+				return facts
+			}
+			var out []fact
+			for _, f := range facts {
+				keep := true
+				for t := range f.E.T {
+					if terms[t] {
+						keep = false
+					}
+				}
+				if keep {
 					out = append(out, f)
 				}
 			}
@@ -868,8 +940,29 @@ func (a *Analysis) IdxGuard() *report.RuleResult {
 					if x.Else != nil {
 						walk([]ast.Stmt{x.Else}, ff)
 					}
-					if returns(x.Body) && x.Else == nil {
+					// what holds afterwards: the facts of the branches that fall through, without what those branches assign
+					bodyFalls := !returns(x.Body)
+					var elseBlock *ast.BlockStmt
+					elseFalls := true
+					if x.Else != nil {
+						if eb, ok := x.Else.(*ast.BlockStmt); ok {
+							elseBlock = eb
+							elseFalls = !returns(eb)
+						}
+					}
+					switch {
+					case !bodyFalls && x.Else == nil:
 						facts = ff
+					case !bodyFalls && elseBlock != nil && elseFalls:
+						facts = killAll(ff, modifiedBy(elseBlock))
+					case bodyFalls && !elseFalls:
+						facts = killAll(tf, modifiedBy(x.Body))
+					default:
+						m := modifiedBy(x.Body)
+						for t := range modifiedBy(x.Else) {
+							m[t] = true
+						}
+						facts = killAll(facts, m)
 					}
 				case *ast.BlockStmt:
 					walk(x.List, facts)
@@ -974,6 +1067,31 @@ func (a *Analysis) IdxGuard() *report.RuleResult {
 						lf = append(lf, pr.factsOf(x.Cond, true)...)
 					}
 					walk(x.Body.List, lf)
+					// after the loop: a fact survives if the loop leaves its terms alone or moves them only in the
+					// direction that keeps it (a lower bound of a counter that is only incremented)
+					{
+						mod := modifiedBy(x)
+						if x.Init != nil {
+							facts = killAll(facts, modifiedBy(x.Init))
+						}
+						var keepF []fact
+						for _, f := range facts {
+							keep := true
+							for t, c := range f.E.T {
+								if !mod[t] {
+									continue
+								}
+								inc, dec, other := loopMoves(pr, x, t)
+								if f.Ne || other || (c > 0 && dec) || (c < 0 && inc) {
+									keep = false
+								}
+							}
+							if keep {
+								keepF = append(keepF, f)
+							}
+						}
+						facts = keepF
+					}
 				case *ast.RangeStmt:
 					rf := append([]fact{}, base...)
 					// for k := range xs: 0 <= k < len(xs) while the body assigns neither
@@ -1007,6 +1125,7 @@ func (a *Analysis) IdxGuard() *report.RuleResult {
 						}
 					}
 					walk(x.Body.List, rf)
+					facts = killAll(facts, modifiedBy(x))
 				case *ast.SwitchStmt:
 					for _, c := range x.Body.List {
 						cc := c.(*ast.CaseClause)
@@ -1019,6 +1138,7 @@ func (a *Analysis) IdxGuard() *report.RuleResult {
 						}
 						walk(cc.Body, cf)
 					}
+					facts = killAll(facts, modifiedBy(x.Body))
 				case *ast.DeclStmt, *ast.BranchStmt, *ast.EmptyStmt:
 				}
 			}
@@ -1100,6 +1220,11 @@ func (a *Analysis) IdxGuard() *report.RuleResult {
 				out[s.fn+"/"+s.expr] = &verdict{false, "index is not a linear expression", 1, s.pos}
 				continue
 			}
+			if s.liveRead {
+				goals = append(goals, lexpr{T: map[string]int{topAtEntry: 1}, K: -1}.plus(i, -1))
+				descr = append(descr, "slot below the top of the stack on entry")
+				break
+			}
 			if s.local != nil {
 				// element i of base[lo:hi] is base[lo+i] and must lie below hi
 				goals = append(goals, i, s.local.hi.plus(s.local.lo, -1).plus(i, -1).plus(lexpr{T: map[string]int{}, K: 1}, -1))
@@ -1160,6 +1285,9 @@ func (a *Analysis) IdxGuard() *report.RuleResult {
 			}
 		}
 		key := s.fn + "/" + s.expr
+		if s.liveRead {
+			key = "stack-live/" + key
+		}
 		if !okAll && os.Getenv("VERIF_DUMP") != "" {
 			for _, f := range s.facts {
 				fmt.Printf("    fact[%s %s] %s >= 0 (ne=%v)\n", s.fn, s.expr, f.E, f.Ne)
@@ -1196,6 +1324,8 @@ func (a *Analysis) IdxGuard() *report.RuleResult {
 		} else if why, ok := idxReviewed[k]; ok {
 			res.OK(k, m.Prog.Pos(v.pos), fn, "reviewed: "+why)
 			res.Count("reviewed-exceptions", 1)
+		} else if strings.HasPrefix(k, "stack-live/") {
+			res.Bad(k, m.Prog.Pos(v.pos), fn, fmt.Sprintf("%s reads a slot of the scanner's call stack that no pending call wrote (at or above the top of the stack when the function was entered): the state it restores is a stale one left by an earlier, already finished call - after an unmatched closing brace the scanner would continue in the wrong machine; %s", strings.SplitN(strings.TrimPrefix(k, "stack-live/"), " !", 2)[0], v.why))
 		} else {
 			res.Bad(k, m.Prog.Pos(v.pos), fn, fmt.Sprintf("%s (%d site(s)) can be out of range: %s", strings.SplitN(strings.SplitN(k, "/", 2)[1], " !", 2)[0], v.count, v.why))
 		}
